@@ -1,6 +1,7 @@
 package op
 
 import (
+	"errors"
 	"context"
 	"fmt"
 	"log/slog"
@@ -481,12 +482,16 @@ type OpenIDKeySet struct {
 	Storage
 }
 
+// ErrKeySetUnavailable is returned (wrapped) by OpenIDKeySet.VerifySignature when the keys
+// could not be loaded from the storage, as opposed to a signature that does not verify.
+var ErrKeySetUnavailable = errors.New("error fetching keys")
+
 // VerifySignature implements the oidc.KeySet interface
 // providing an implementation for the keys stored in the OP Storage interface
 func (o *OpenIDKeySet) VerifySignature(ctx context.Context, jws *jose.JSONWebSignature) ([]byte, error) {
 	keySet, err := o.Storage.KeySet(ctx)
 	if err != nil {
-		return nil, fmt.Errorf("error fetching keys: %w", err)
+		return nil, fmt.Errorf("%w: %w", ErrKeySetUnavailable, err)
 	}
 	keyID, alg := oidc.GetKeyIDAndAlg(jws)
 	key, err := oidc.FindMatchingKey(keyID, oidc.KeyUseSignature, alg, jsonWebKeySet(keySet).Keys...)
